@@ -4,13 +4,17 @@
 //! budget from one redeemer to the next is not exercised by them.  Here transactions are
 //! built from CBOR written by the harness itself: up to three redeemers drawn from the
 //! purposes {mint (several policies), withdraw, spend}, each backed by a Plutus V3 script of
-//! a known behaviour - `ok(k)` (ignores its context, does k units of work, succeeds) or
-//! `fail` - in every order of the witness scripts, as a redeemer list and as a redeemer map.
+//! a known behaviour - `ok(k)` (does k units of work, succeeds) or `fail` - in every order of
+//! the witness scripts, as a redeemer list and as a redeemer map.  Every script first checks,
+//! in the script context it is given, that the redeemer is the integer *it* expects and that
+//! the script info has the constructor of *its* purpose; otherwise it fails.
 //!
 //! Oracles, all independent of the code under test:
-//!   - a script that ignores its argument costs the same whatever the context, so the
-//!     ex-units of redeemer i must equal the cost of evaluating its script on a dummy
-//!     argument (same language, same cost model) - computed by the harness;
+//!   - the checks only use constant-cost builtins, so a script costs the same whatever the
+//!     rest of the context: the ex-units of redeemer i must equal the cost of evaluating its
+//!     script on the smallest context satisfying the checks (same language, same cost
+//!     model) - computed by the harness;
+//!   - with every purpose carrying another purpose's redeemer value the simulation fails;
 //!   - the simulation fails iff some script fails (known by construction);
 //!   - with a budget B: success iff every prefix sum of those costs, in redeemer order,
 //!     fits B (the remaining budget is threaded from redeemer to redeemer);
@@ -101,13 +105,43 @@ fn body_term(b: Behaviour) -> RTerm {
     }
 }
 
-/// the bytes stored in the witness set: CBOR byte string of the flat program
-/// `(lam ctx [(lam salt BODY) (con integer salt)])`; the salt (an unused constant) makes
-/// scripts of equal behaviour distinct, BODY is closed so the extra binders do not matter
-fn script_bytes(b: Behaviour, salt: u8) -> Vec<u8> {
-    let inner = RTerm::App(Rc::new(RTerm::Lam(Rc::new(body_term(b)))), Rc::new(RTerm::Con(Rc::new(RConst::int(salt as i64)))));
-    let t = RTerm::Lam(Rc::new(inner));
-    vcore::flat_ref::cbor_bytes_wrap(&vcore::flat_ref::program_flat((1, 1, 0), &t))
+/// V3 `ScriptInfo` constructor index of a purpose
+fn info_tag(kind: &str) -> i64 {
+    match kind {
+        "mint" => 0,
+        "spend" => 1,
+        "withdraw" => 2,
+        _ => 3,
+    }
+}
+
+/// `(lam ctx (force [[[(force ifThenElse) C1] (delay (force [[[(force ifThenElse) C2] (delay BODY)] (delay error)]))] (delay error)]))`
+/// with C1 = the redeemer in the context is `I salt`, C2 = the script info has the
+/// constructor of this script's purpose: the script only behaves as BODY when it is run for
+/// the purpose, and with the redeemer, the transaction pairs it with.  Every builtin involved
+/// has a constant cost, so the cost does not depend on the rest of the context.
+fn script_term(b: Behaviour, salt: u8, kind: &str) -> RTerm {
+    use uplc::builtins::DefaultFunction as F;
+    let app = |f: RTerm, a: RTerm| RTerm::App(Rc::new(f), Rc::new(a));
+    let force = |t: RTerm| RTerm::Force(Rc::new(t));
+    let delay = |t: RTerm| RTerm::Delay(Rc::new(t));
+    let bi = |f: F| RTerm::Builtin(f);
+    let ctx = || RTerm::Var(1);
+    let fields = || app(force(force(bi(F::SndPair))), app(bi(F::UnConstrData), ctx()));
+    let tail = |t: RTerm| app(force(bi(F::TailList)), t);
+    let head = |t: RTerm| app(force(bi(F::HeadList)), t);
+    let redeemer = head(tail(fields()));
+    let info = head(tail(tail(fields())));
+    let c1 = app(app(bi(F::EqualsData), redeemer), RTerm::Con(Rc::new(RConst::Data(vcore::rterm::RData::I((salt as i64).into())))));
+    let c2 = app(app(bi(F::EqualsInteger), app(force(force(bi(F::FstPair))), app(bi(F::UnConstrData), info))), RTerm::Con(Rc::new(RConst::int(info_tag(kind)))));
+    let ite = |c: RTerm, t: RTerm| force(app(app(app(force(bi(F::IfThenElse)), c), delay(t)), delay(RTerm::Error)));
+    RTerm::Lam(Rc::new(ite(c1, ite(c2, body_term(b)))))
+}
+
+/// the bytes stored in the witness set: CBOR byte string of the flat program (the salt makes
+/// scripts of equal behaviour distinct)
+fn script_bytes(b: Behaviour, salt: u8, kind: &str) -> Vec<u8> {
+    vcore::flat_ref::cbor_bytes_wrap(&vcore::flat_ref::program_flat((1, 1, 0), &script_term(b, salt, kind)))
 }
 
 fn script_hash(witness_bytes: &[u8]) -> [u8; 28] {
@@ -116,14 +150,16 @@ fn script_hash(witness_bytes: &[u8]) -> [u8; 28] {
     blake2b_224(&pre).try_into().unwrap()
 }
 
-/// independent cost of a script: evaluated on a dummy argument (it ignores its context)
-fn standalone_cost(witness_bytes: &[u8]) -> Result<Option<(u64, u64)>, String> {
+/// independent cost of a script: evaluated on the smallest context that satisfies its two
+/// checks, `Constr 0 [I 0, I salt, Constr tag []]`
+fn standalone_cost(witness_bytes: &[u8], salt: u8, kind: &str) -> Result<Option<(u64, u64)>, String> {
     let w = witness_bytes.to_vec();
+    let ctx = vcore::rterm::to_impl_data(&vcore::rterm::RData::Constr(0, vec![vcore::rterm::RData::I(0.into()), vcore::rterm::RData::I((salt as i64).into()), vcore::rterm::RData::Constr(info_tag(kind) as u64, vec![])]));
     guarded(move || {
         let mut buf = vec![];
         let p = Program::<DeBruijn>::from_cbor(&w, &mut buf).expect("own script decodes");
         let p: Program<NamedDeBruijn> = p.into();
-        let p = p.apply_data(uplc::PlutusData::BigInt(pallas_primitives::conway::BigInt::Int(0.into())));
+        let p = p.apply_data(ctx);
         let r = p.eval_version(ExBudget { cpu: 1_000_000_000_000, mem: 1_000_000_000_000 }, &uplc::Language::PlutusV3);
         let c = r.cost();
         r.result.ok().map(|_| (c.cpu as u64, c.mem as u64))
@@ -143,7 +179,8 @@ pub struct Built {
     pub tx: Vec<u8>,
     pub utxos: Vec<(Vec<u8>, Vec<u8>)>,
     /// behaviours and standalone costs in the order the redeemers are listed
-    pub in_redeemer_order: Vec<(String, Behaviour, Vec<u8>)>,
+    /// (label, behaviour, script bytes, salt, purpose kind)
+    pub in_redeemer_order: Vec<(String, Behaviour, Vec<u8>, u8, &'static str)>,
 }
 
 fn key_address() -> Vec<u8> {
@@ -153,8 +190,13 @@ fn key_address() -> Vec<u8> {
 }
 
 pub fn build(purposes: &[Purpose], witness_order: &[usize], redeemer_order: &[usize], redeemers_as_map: bool) -> Built {
+    build_with(purposes, witness_order, redeemer_order, redeemers_as_map, 0)
+}
+
+/// `shift`: purpose i carries the redeemer purpose (i + shift) mod n expects (0 = its own)
+pub fn build_with(purposes: &[Purpose], witness_order: &[usize], redeemer_order: &[usize], redeemers_as_map: bool, shift: usize) -> Built {
     // one script per purpose, all distinct
-    let scripts: Vec<Vec<u8>> = purposes.iter().enumerate().map(|(i, p)| script_bytes(p.behaviour, i as u8 + 1)).collect();
+    let scripts: Vec<Vec<u8>> = purposes.iter().enumerate().map(|(i, p)| script_bytes(p.behaviour, i as u8 + 1, p.kind)).collect();
     let hashes: Vec<[u8; 28]> = scripts.iter().map(|s| script_hash(s)).collect();
     // inputs: one key input that pays, plus one script input per spend purpose
     let mut inputs: Vec<(Vec<u8>, Vec<u8>)> = vec![]; // (input cbor, output cbor)
@@ -210,11 +252,12 @@ pub fn build(purposes: &[Purpose], witness_order: &[usize], redeemer_order: &[us
         reds.push((0, pos as u64, *i));
     }
     let ordered: Vec<(u64, u64, usize)> = redeemer_order.iter().filter_map(|k| reds.get(*k).copied()).collect();
-    let unit_data = vec![0xd8, 0x79, 0x80]; // Constr 0 []
+    // each purpose's redeemer is the integer its script expects (`I salt`, salt = index + 1)
+    let red_data = |i: usize| uint(((i + shift) % purposes.len()) as u64 + 1);
     let red_cbor = if redeemers_as_map {
-        map(&ordered.iter().map(|(t, ix, _)| (array(&[uint(*t), uint(*ix)]), array(&[unit_data.clone(), array(&[uint(0), uint(0)])]))).collect::<Vec<_>>())
+        map(&ordered.iter().map(|(t, ix, i)| (array(&[uint(*t), uint(*ix)]), array(&[red_data(*i), array(&[uint(0), uint(0)])]))).collect::<Vec<_>>())
     } else {
-        array(&ordered.iter().map(|(t, ix, _)| array(&[uint(*t), uint(*ix), unit_data.clone(), array(&[uint(0), uint(0)])])).collect::<Vec<_>>())
+        array(&ordered.iter().map(|(t, ix, i)| array(&[uint(*t), uint(*ix), red_data(*i), array(&[uint(0), uint(0)])])).collect::<Vec<_>>())
     };
     let witness_scripts: Vec<Vec<u8>> = witness_order.iter().filter_map(|k| scripts.get(*k)).map(|s| bytes(s)).collect();
     let witness = map(&[(uint(5), red_cbor), (uint(7), array(&witness_scripts))]);
@@ -223,7 +266,7 @@ pub fn build(purposes: &[Purpose], witness_order: &[usize], redeemer_order: &[us
     Built {
         tx,
         utxos: inputs,
-        in_redeemer_order: ordered.iter().map(|(t, ix, i)| (format!("{}#{}", names[*t as usize], ix), purposes[*i].behaviour, scripts[*i].clone())).collect(),
+        in_redeemer_order: ordered.iter().map(|(t, ix, i)| (format!("{}#{}", names[*t as usize], ix), purposes[*i].behaviour, scripts[*i].clone(), *i as u8 + 1, purposes[*i].kind)).collect(),
     }
 }
 
@@ -295,6 +338,7 @@ pub fn part(run: &mut Run, tier: Tier) -> (u64, u64) {
     let (mut sims, mut txs) = (0u64, 0u64);
     let mut outcomes: HashSet<String> = HashSet::new();
     let mut threaded = 0u64;
+    let mut wrong_redeemer_runs = 0u64;
     for purposes in &configs {
         let n = purposes.len();
         for as_map in [false, true] {
@@ -323,8 +367,8 @@ pub fn part(run: &mut Run, tier: Tier) -> (u64, u64) {
                 outcomes.insert(format!("{:?}", base));
                 // expected per-redeemer costs, in the order the redeemers were listed
                 let mut expected: Units = vec![];
-                for (_, _, script) in &reference.in_redeemer_order {
-                    match standalone_cost(script) {
+                for (_, _, script, salt, kind) in &reference.in_redeemer_order {
+                    match standalone_cost(script, *salt, kind) {
                         Ok(Some(c)) => expected.push(c),
                         Ok(None) => expected.push((0, 0)),
                         Err(p) => run.machinery_error(format!("standalone evaluation panicked: {p}")),
@@ -390,6 +434,16 @@ pub fn part(run: &mut Run, tier: Tier) -> (u64, u64) {
                         }
                     }
                 }
+                // the scripts do look at what they are given: with the redeemers handed to the
+                // wrong purposes no script can succeed, so the simulation must fail
+                if n >= 2 && !any_fail {
+                    let wrong = build_with(purposes, &(0..n).collect::<Vec<_>>(), &red_order, as_map, 1);
+                    sims += 1;
+                    if let Ok(Ok(u)) = simulate(&wrong, &all_utxos, None) {
+                        run.violation(Violation { signature: "script-run-with-another-purposes-redeemer-succeeds".into(), what: format!("every script demands its own redeemer value, the transaction gives each purpose another purpose's value, yet the simulation succeeds with {:?}", u), case: case.clone() });
+                    }
+                    wrong_redeemer_runs += 1;
+                }
                 // invariance under the order of witness scripts and of resolved inputs
                 for wo in perms(n) {
                     let b2 = build(purposes, &wo, &red_order, as_map);
@@ -419,6 +473,7 @@ pub fn part(run: &mut Run, tier: Tier) -> (u64, u64) {
     run.set("hand_built_transactions", txs);
     run.set("hand_built_simulations", sims);
     run.set("hand_built_multi_redeemer_budget_configurations", threaded);
+    run.set("hand_built_wrong_redeemer_controls", wrong_redeemer_runs);
     run.set("hand_built_distinct_outcomes", outcomes.len() as u64);
     if threaded == 0 {
         run.machinery_error("vacuous: no multi-redeemer transaction evaluated successfully");
